@@ -875,6 +875,7 @@ def gen_C09(r, n, thorough=False):
                 c.add('num_integration.impl_ToPrimitive_for_TwoFloat.to_%ssize %s' % (ty[0], w2(t)), kind='toprim', ty=ty, t=t)
         for v in vals[:max(50, n)]:
             c.add('num_integration.impl_FromPrimitive_for_TwoFloat.from_%s %d' % (ty, v), kind='from', ty=ty, v=v)
+            c.add('tr.FromPrimitive.from_%s %d' % (ty, v), kind='from', ty=ty, v=v, impl_only=True)
         # the generic <TwoFloat as NumCast>::from(n) (hand model Hand.numCastFrom): it must agree with From<int>; its only own logic is the
         # 2^53 switch between the f64 route and the 128-bit integer routes, so the neighbourhood of +-2^53 is enumerated
         nc = list(vals[:max(50, n)])
@@ -891,10 +892,12 @@ def gen_C09(r, n, thorough=False):
           float('inf'), float('-inf'), float('nan'), 5e-324, -5e-324, 2.2250738585072014e-308]
     for x in fl + [fp.any_f64(r) for _ in range(n)]:
         c.add('numcast.f64 %s' % hx(x), kind='numcast_f64', x=x)
+        c.add('tr.FromPrimitive.from_f64 %s' % hx(x), kind='numcast_f64', x=x, impl_only=True)
     f32s = [0x00000000, 0x80000000, 0x3f800000, 0xbf800000, 0x5a000000, 0xda000000, 0x59ffffff, 0x5a000001, 0x7e800000, 0xfe800000, 0xff000000, 0x7f000000,
             0x7f7fffff, 0xff7fffff, 0x7f800000, 0xff800000, 0x7fc00000, 0x00000001, 0x80000001, 0x5f000000, 0xdf000000]
     for b in f32s + [r.next() & 0xffffffff for _ in range(n)]:
         c.add('numcast.f32 %08x' % b, kind='numcast_f64', x=_st.unpack('<f', _st.pack('<I', b))[0])
+        c.add('tr.FromPrimitive.from_f32 %08x' % b, kind='numcast_f64', x=_st.unpack('<f', _st.pack('<I', b))[0], impl_only=True)
     for _ in range(n):
         t = fp.any_tf(r)
         c.add('convert.impl_From_TwoFloat_for_f64.from %s' % w2(t), kind='tof64', t=t)
